@@ -6,6 +6,9 @@ checks = {
  "C01": dict(level=EXPL, ref="§C01", tech="bounded-exhaustive enumeration of expression/statement trees and literal alphabets, differential execution in V8 (input vs output)",
    text="every expression tree of the stated depth over the full operator table in every statement context, every statement skeleton of depth<=2, all 65536 UTF-16 code units and all words<=3 over class representatives, every float64 exponent x mantissa pattern, regex bodies<=3 atoms: esbuild's output under 7 formatting configurations is executed in V8 next to the input with logging proxies; any difference in call log, result or thrown class is a violation",
    note="V8 (Node 20) is the reference semantics; source text of functions and stack traces are never observed; JSX sub-space not yet built"),
+ "C02": dict(level=EXPL, ref="§C02", tech="bounded-exhaustive enumeration of module graphs (shapes x module kinds x edge kinds), differential execution: Node's native ESM/CJS loaders vs the bundle loaded per format",
+   text="all graphs of <=3 modules over 10 shapes x {.mjs,.cjs} x 12 edge kinds x CJS export styles x throwing variants are loaded natively by Node and as esm/cjs/iife bundles (node/browser/neutral, minified or not); evaluation log, live bindings, interop shapes, thrown error classes and the entry's export surface must agree; asset loaders (binary/base64/dataurl/text/json) over all single bytes and byte-class words must yield exactly the file's bytes/text/JSON value",
+   note="Node 20 native loaders are the reference; documented limitations excluded by construction (sibling TLA, CJS requiring ESM, mutation of CJS exports after evaluation, racing independent async chains)"),
  "C03": dict(level=EXPL, ref="§C03", tech="bounded-exhaustive enumeration (operators x boundary grid^2 fold table; trees/patterns with probes x 8 minify subsets), differential execution in V8",
    text="complete constant-folding table over a 46-56 value boundary grid for all binary/unary/conditional operators compared with V8's own evaluation; expression trees, statement skeletons and ~560 minifier trigger patterns with side-effect probes under 8 minify flag subsets (+define/pure/drop/drop-labels against generator-side references)",
    note="V8 (Node 20) is the reference semantics; documented minifier assumptions (function names without keep-names, TDZ) are not observed"),
